@@ -5,7 +5,9 @@ P: tiling lemmas with a ghost cursor: every statement the Disassembler hands to
    the requested range - Disassembler.disassemble (wrap on/off, decoders by
    their length contract), Disassembler._defb_lines (chunking), for all
    (start, end) and all memory.
-   Per-statement re-assembly is C02.
+   Per-instruction re-assembly is C02; the number formatter (every value, base,
+   case, hex/decimal: E) and the data statements are re-checked here as well,
+   because every DEFB/DEFM/DEFW/DEFS line of a disassembly depends on them.
 B: composition through the text layers (CtlParser, SkoolWriter, skool2bin):
    skool2bin(sna2skool(mem, ctl, options)) == mem on every non-ignored address,
    on generated (memory, control file, options) triples.
@@ -397,8 +399,43 @@ def run(tier):
     check_defb_lines(rep)
     quick = tier == 'quick'
     n = 160 if quick else 5000
+    import itertools
+    from props import c02
     with Pool(common.NCPU) as p:
+        # E: the text of every numeric operand / DEFB / DEFW item, in every base, evaluates back to the value
+        # (the same enumeration C02 owns: lossless disassembly depends on it for every data statement)
+        tasks = []
+        for hexa, lower in itertools.product((False, True), repeat=2):
+            tasks.append((hexa, lower, 1, 0, 256))
+            for lo in range(0, 65536, 8192):
+                tasks.append((hexa, lower, 2, lo, lo + 8192))
+        resn = p.map(c02.numbers_chunk, tasks)
+        nn = sum(r[0] for r in resn)
+        badn = [b for r in resn for b in r[1]]
+        rep.add_bulk(nn - len(badn), 'exhaustive', 0, 'skoolkit.disassembler.OperandFormatter._num_str / skoolkit.z80.eval_int', n=nn)
+        rep.exhaustive.append({'domain': 'number formatting: values 0..255 (1 byte) and 0..65535 (2 bytes) x bases n,b,c,d,h,m x {hex,dec} x {upper,lower}', 'size': nn, 'visited': nn, 'complete': True})
+        seenn = set()
+        for hexa, lower, nb, base, v, s_, e_ in badn:
+            key = 'C01/number/base=%s/nb=%d/value=%d' % (base, nb, v)
+            if key in seenn or len(seenn) >= 12:
+                continue
+            seenn.add(key)
+            rep.violation(key, '_num_str(%d, %d, %r) = %r evaluates to %r: the statement does not re-assemble to the original byte(s)' % (v, nb, base, s_, e_),
+                          {'case': {'value': v, 'num_bytes': nb, 'base': base, 'asm_hex': hexa, 'asm_lower': lower}, 'text': s_, 'eval': e_})
         res = p.map(e2e_case, [(common.seed(), k) for k in range(n)], chunksize=2)
+    ev, badd = c02.defs_bounded(common.seed(), 150 if quick else 3000)
+    rep.bounded.append({'function': 'Disassembler.defb_range/defm_range/defw_range/defs_range o Assembler.assemble',
+                        'contract': 'data statements tile the range, carry the bytes, and assemble back to them',
+                        'bound': 'every single byte x base x DEFB/DEFM; all sequences of length 2..3 over a 16-symbol covering alphabet; random statements per config', 'evaluations': ev})
+    seend = set()
+    for b in badd:
+        if b[0].startswith('SPELL'):
+            continue
+        key = 'C01/data-statement/%s/%s' % (b[0], str(b[1])[:30])
+        if key in seend:
+            continue
+        seend.add(key)
+        rep.violation(key, 'data statement round trip fails: %s' % (b,), {'case': {'data_statement': list(b)[:8]}})
     bad = [r for r in res if r]
     rep.bounded.append({'function': 'skoolkit.sna2skool.main -> skoolkit.skool2bin.main', 'contract': 'output bytes == input bytes at every non-ignored address',
                         'bound': '%d generated (memory, control file, options) triples: b/c/g/s/t/u/w/i blocks, B/T/C sub-blocks with base prefixes, -H/-l/-w, DefbSize/DefmSize/DefwSize/Opcodes/Wrap' % n, 'evaluations': n})
@@ -423,6 +460,15 @@ def replay(path):
         doc = json.load(f)
     print('replaying', doc.get('key'), doc.get('case'))
     case = doc.get('case') or {}
+    if 'num_bytes' in case:
+        from props import c02
+        n_, bad = c02.numbers_chunk((case['asm_hex'], case['asm_lower'], case['num_bytes'], case['value'], case['value'] + 1))
+        bad = [b for b in bad if b[3] == case['base']]
+        print(bad)
+        if bad:
+            print('VIOLATION property=C01 replay=%s' % path)
+            return 1
+        return 0
     if 'wrap' in case and case.get('start') is not None:
         d = concrete_tiling(case['start'], case['end'], case['wrap'])
         print(d)
